@@ -228,7 +228,6 @@ REPLAY = {f"{INP}.pull_data": "seq_output.py", f"{INP}._convert_and_check": "seq
 def register_ctor(reg):
     reg.field("_logger", TOpt(TObj("logger")))
     reg.field("base_logger_name", TOpt(sv.Str))
-    reg.field("callback", TOpt(TObj("callback")))
     for cls, extra in (("Input", {}), ("CallbackInput", {"callback": TObj("callback")})):
         qual = f"finam.sdk.input.{cls}.__init__"
         params = dict(extra)
